@@ -129,11 +129,10 @@ MUTANTS = {
     "rewriter_tmp_shared": ("recode.py", '        tmp = f"__TMP{next(self.count)}_"', '        tmp = "__TMP_"', ["C09"]),
     "closure_wrong_cell": ("recode.py", "            fn.__closure__[fn.__code__.co_freevars.index(name)]", "            fn.__closure__[0]", ["C09"]),
     # ---- C18
-    "compile_no_reset": ("core.py", "            self._compiled = False\n            dispatch = getattr(self, \"dispatch\", None)\n            if dispatch is not None:\n                dispatch.__code__ = dispatch.__bootstrap_code__\n                dispatch.__defaults__ = None\n                dispatch.__kwdefaults__ = None\n            raise",
-                         "            raise", ["C18"]),
+    "compile_no_reset": ("core.py", "            self._invalidate()\n            raise", "            raise", ["C18"]),
     "compile_reset_only_exception": ("core.py", "                self._compile()\n        except BaseException:", "                self._compile()\n        except Exception:", ["C18"]),
     "compiled_flag_early": ("core.py", "        self.analyze_arguments()\n        dispatch = generate_dispatch(self, self.argument_analysis)", "        self._compiled = True\n        self.analyze_arguments()\n        dispatch = generate_dispatch(self, self.argument_analysis)", ["C18"]),
-    "compile_reset_keeps_compiled": ("core.py", "            self._compiled = False\n            dispatch = getattr", "            dispatch = getattr", ["C18"]),
+    "compile_reset_keeps_compiled": ("core.py", "        self._compiled = False\n        dispatch = getattr", "        dispatch = getattr", ["C18"]),
     "publish_primary_first": ("typemap.py", "        for tup, func in reversed(entries):\n            self[tup] = func", "        for tup, func in entries:\n            self[tup] = func", ["C18", "C19"]),
     # ---- C19
     "ensure_compiled_unlocked": ("core.py", "        with resolution_lock:\n            # Another thread may have compiled it in the meantime\n            if not self._compiled:\n                self.compile()",
